@@ -223,7 +223,7 @@ func genArgvLoose(r *Rng, d *DeclSpec, n int) []string {
 var adversarialTokens = []string{
 	"", "-", "--", "---", "---x", "-=", "--=", "-x=", "=", "==", "-=x", "--=x", "\"", "\"abc", "\"abc\"", "\"a\\", "-\"", "--\"x\"",
 	"-é", "-世x", "-\xff", "-a\xffb", "--\xff", "-é=1", "--é=\"", "-ß世", "- ", "-- ", " -a", "-\x00", "--\x00=\x00", "-a=", "--a=", "-ab=c",
-	"-1", "-1.5", "--1", "-.5", "-e", "+1", "0x10", "-0", "--no-", "-a-b", "-a--", "--a--b", "-\t", "-\n", "--help=1", "-h=1", "-hh", "--help--",
+	"-1", "-1.5", "--1", "-.5", "-.", "-..", "-1.", "-1e", "-e", "+1", "0x10", "-0", "--no-", "-a-b", "-a--", "--a--b", "-\t", "-\n", "--help=1", "-h=1", "-hh", "--help--",
 }
 
 func genArgvAdversarial(r *Rng, d *DeclSpec, n int) []string {
@@ -245,6 +245,9 @@ func genArgvAdversarial(r *Rng, d *DeclSpec, n int) []string {
 				out = append(out, pre+r.Pick([]string{"", "=", "=\"", "=\"x", "=-", "=--", "é", "=\xff", "= ", "=\"a\"b"}))
 				if r.Bool() {
 					out = append(out, r.Pick(adversarialTokens))
+				} else if r.Bool() {
+					// what follows an option name may look like a negative number
+					out = append(out, r.Pick([]string{"-.", "-.5", "-1", "-", "-1x", "-.e", "-0"}))
 				}
 			}
 		case 6:
